@@ -135,6 +135,21 @@ func tfSchema() *schema.BodySchema {
 						"sub": {Body: &schema.BodySchema{Attributes: map[string]*schema.AttributeSchema{
 							"x": {IsOptional: true, Constraint: schema.LiteralType{Type: cty.Number}},
 						}}},
+						// a nested block whose dependent body is selected by an attribute that is usually
+						// left to its default value
+						"backend": {
+							Body: &schema.BodySchema{Attributes: map[string]*schema.AttributeSchema{
+								"kind": {IsOptional: true, IsDepKey: true, Constraint: schema.LiteralType{Type: cty.String}, DefaultValue: schema.DefaultValue{Value: cty.StringVal("local")}},
+							}},
+							DependentBody: map[schema.SchemaKey]*schema.BodySchema{
+								schema.NewSchemaKey(schema.DependencyKeys{Attributes: []schema.AttributeDependent{{Name: "kind", Expr: schema.ExpressionValue{Static: cty.StringVal("local")}}}}): {
+									Attributes: map[string]*schema.AttributeSchema{"path": {IsOptional: true, Constraint: schema.LiteralType{Type: cty.String}}},
+									Blocks: map[string]*schema.BlockSchema{"bopts": {Body: &schema.BodySchema{Attributes: map[string]*schema.AttributeSchema{
+										"mode": {IsOptional: true, Constraint: schema.LiteralType{Type: cty.String}},
+									}}}},
+								},
+							},
+						},
 					},
 				},
 				DependentBody: map[schema.SchemaKey]*schema.BodySchema{
@@ -458,6 +473,9 @@ func genTf(r *rand.Rand) *TfConfig {
 		}
 		if r.Intn(2) == 0 {
 			g.sb.WriteString("  sub {\n    x = 1\n  }\n")
+		}
+		if r.Intn(2) == 0 {
+			g.sb.WriteString("  backend {\n    path = \"p\"\n    bopts {\n      mode = \"m\"\n    }\n  }\n")
 		}
 		g.sb.WriteString("}\n")
 	}
